@@ -52,9 +52,9 @@ func (t *swapRecording) Name() string { return "websocket" }
 func (t *swapRecording) Handshake(*parser.Packet, http.ResponseWriter, *http.Request) (string, error) {
 	return "", nil
 }
-func (t *swapRecording) PostHandshake(*parser.Packet)                {}
+func (t *swapRecording) PostHandshake(*parser.Packet)                 {}
 func (t *swapRecording) ServeHTTP(http.ResponseWriter, *http.Request) {}
-func (t *swapRecording) QueuedPackets() []*parser.Packet             { return nil }
+func (t *swapRecording) QueuedPackets() []*parser.Packet              { return nil }
 func (t *swapRecording) Send(packets ...*parser.Packet) {
 	t.mu.Lock()
 	t.sent = append(t.sent, packets...)
